@@ -496,7 +496,7 @@ def py_oracle_check(real: Real, src: str) -> tuple[str, str | None, dict[str, An
 
 EOF_CONTEXTS = ['', 'a ', 'a', 'x = b ', 'if a:\n\tb ', 'if a:\n    if b:\n        c\n    d', '(a)\n\nb ']
 EOF_TAILS = ['', '\n', ' ', '  # c', '\n\n', '\n# c', '\t\n']
-EOF_LAST = G.SINGLE_OPS + G.SHARED_COMBINED + ['a', 'rf', '0', '12', '3.5', '7.', "'s'", '"t"', 'r"u\\"', 'f"{a}"', '"""m\nn"""']
+EOF_LAST = G.SINGLE_OPS + G.SHARED_COMBINED + ['a', 'rf', '0', '12', '3.5', '7.', "'s'", '"t"', 'r"u\\\\"', "'v\\''", 'f"{a}"', '"""m\nn"""']
 
 
 def eof_boundary_cases() -> list[tuple[str, str, str]]:
@@ -531,6 +531,36 @@ def shrink_program(prog: list[G.Line], lay: G.Layout, fails: Any) -> tuple[list[
 		return bool(p) and fails(p, l2)
 
 	keep = common.shrink_list(idx, still, max_steps=150)
+	return build(keep)
+
+
+def shrink_layout_pair(real: Real, prog: list[G.Line], lay_a: G.Layout, lay_b: G.Layout) -> tuple[str, str]:
+	"""Drop whole logical lines (from the program and from both layouts) while the two renderings still give different
+	significant token sequences; returns the two shrunk sources."""
+	def build(keep: list[int]) -> tuple[str, str]:
+		d_prev = -1
+		fixed = []
+		for i in keep:
+			d = min(prog[i].depth, d_prev + 1) if d_prev >= 0 else 0
+			fixed.append(G.Line(d, prog[i].toks))
+			d_prev = d
+		cut = lambda lay: G.Layout(lay.unit, [lay.gaps[i] for i in keep], [lay.fill[i] for i in keep], [lay.trail[i] for i in keep], lay.tail, lay.final_newline)
+		return G.render(fixed, cut(lay_a)), G.render(fixed, cut(lay_b))
+
+	def still(keep: list[int]) -> bool:
+		if not keep:
+			return False
+		a, b = build(keep)
+		try:
+			return real.significant(a) != real.significant(b)
+		except Exception:  # noqa: BLE001 - a different failure: not the one being shrunk
+			return False
+
+	idx = list(range(len(prog)))
+	try:
+		keep = common.shrink_list(idx, still, max_steps=120) if still(idx) else idx
+	except Exception:  # noqa: BLE001
+		keep = idx
 	return build(keep)
 
 
@@ -694,9 +724,18 @@ def search_layout(ctx: Ctx, real: Real) -> SearchResult:
 				key = f'layout:{dim}'
 				if key not in keys:
 					keys.add(key)
-					k = first_diff(base, other) if isinstance(other, list) else -1
+					s1, s2, base_s, other_s = src, src2, base, other
+					if isinstance(other, list):
+						try:
+							t1, t2 = shrink_layout_pair(real, prog, lay, lay2)
+							b1, b2 = real.significant(t1), real.significant(t2)
+							if b1 != b2:
+								s1, s2, base_s, other_s = t1, t2, b1, b2
+						except Exception:  # noqa: BLE001 - keep the unshrunk pair
+							pass
+					k = first_diff(base_s, other_s) if isinstance(other_s, list) else -1
 					res.findings.append(Finding(key=key, what=f'layout rewrite ({dim}) changes the significant token sequence',
-						replay={'source': src, 'rewritten': src2, 'at': k, 'tokens': base[max(0, k - 2):k + 3], 'tokens_rewritten': other[max(0, k - 2):k + 3] if isinstance(other, list) else other}))
+						replay={'source': s1, 'rewritten': s2, 'at': k, 'tokens': base_s[max(0, k - 2):k + 3], 'tokens_rewritten': other_s[max(0, k - 2):k + 3] if isinstance(other_s, list) else other_s}))
 		if len(res.samples) < 2:
 			res.samples.append({'source': src[:200], 'indents': ind, 'dedents': ded})
 	# boundary observation B1 (DESIGN.md §7): the witness of C13.balance_counterexample replayed on the real code
@@ -964,6 +1003,10 @@ def search_certified(ctx: Ctx, real: Real) -> SearchResult:
 			tail2 = rng.choice(['', '', '\n', ' ', '\n\n', '  \n\t', '\t', '\n    \n'])
 			if body + tail2 != src:
 				probes.append(('tail', src, body + tail2, len(body), f'lay.tail\t{hx(body)}\t{hx(src[len(body):])}\t{hx(tail2)}'))
+		# the beginning of the source (C13.layout_lead_by_position): white space / one comment-only line in front of it
+		for _ in range(2):
+			pre = rng.choice(['\n', '  ', '\t', '\n\n', ' \n', '# c\n', '#\n', '# x = (1\n    ', "# it's\n\n", '\n# c\n', '# c'])
+			probes.append(('lead', src, pre + src, 0, f'lay.lead\t{hx(pre)}\t{hx(src)}'))
 		try:
 			toks = real.lexers['py'].parse_impl(src)
 		except Exception:  # noqa: BLE001 - the other searches report a lexer that raises on the subset
@@ -1114,6 +1157,8 @@ STATEMENTS = {
 	'layout_chars_trailing': 'END TO END: white space appended after the last token (blanks, a final newline, blank lines) leaves Tokenizer.parse unchanged up to source maps; the last token may be any token but white space (a comment only before a newline) — in particular a combined symbol or a minus sign ending exactly at the end of the input',
 	'layout_tail_by_position': 'any two white space tails (possibly empty) after the tokens of a source give the same Tokenizer.parse whenever the decidable check tailOK passes for both (driver op lay.tail; examples decided in the kernel)',
 	'layout_closure_tail': 'LayoutEqT = equivalence generated by the steps of layout_closure and the replacement of the tail; equivalent sources have the same Tokenizer.parse up to source maps',
+	'layout_chars_leading_blank / layout_chars_leading_comment / layout_lead_by_position': 'END TO END: white space (blanks, blank lines, an indentation of the first line) or a comment-only line in front of the first token leaves Tokenizer.parse unchanged up to source maps; positional form with the decidable checker leadOK (driver op lay.lead; examples decided in the kernel)',
+	'layout_closure_all': 'LayoutEqAll = equivalence generated by the steps between tokens / at line ends (layout_closure), the tail (layout_closure_tail) and the rewrites in front of the first token; equivalent sources have the same Tokenizer.parse up to source maps (example: two comment lines and a blank line in front, a final newline behind)',
 	'pyDef_tailFree': 'the side condition of the tight-comment theorems decided for the generated definitions: `#` occurs in no look-ahead pattern of TokenDefinition() after the first character (for the grammar definition `//` does continue a `/`: there the rewrite is no layout change)',
 	'layout_chars_comment_tight / layout_comment_tight_by_position': 'END TO END: a comment inserted at a line end directly after a token, without a blank, leaves Tokenizer.parse unchanged up to source maps (last token not a minus sign / comment); positional form with the decidable checker commentTightOK (driver op lay.tcomment; examples decided in the kernel)',
 	'layout_blank_by_position / layout_comment_by_position / layout_comment_line_by_position': 'the layout rewrites described syntactically (insert w at offset pos): whenever the decidable checker passes (it computes the TokPrefix evidence by lexing the prefix token by token: whole, terminated tokens, the last one tolerating white space), Tokenizer.parse is unchanged up to source maps; examples decided in the kernel',
@@ -1141,7 +1186,7 @@ def run(ctx: Ctx) -> int:
 		translate_ok=translate_ok, translate_msg=translate_msg,
 		statements=STATEMENTS,
 		partial={
-			'proved': 'concat / progress / totality / span for parse_impl; INDENT/DEDENT accounting of _rebuild (and its falsity for over-indented blocks); closed form of post_filter; the layout sentence at token level in full and at character level end to end for blanks, blank lines, trailing comments (with or without a blank in front), comment-only lines and the indentation unit, and for the white space after the last token incl. the final newline (each rewrite step at a token boundary; composition by transitivity); the control flow of parse_symbol / handle_white_space / handle_symbol as generated tables equal to the hand model',
+			'proved': 'concat / progress / totality / span for parse_impl; INDENT/DEDENT accounting of _rebuild (and its falsity for over-indented blocks); closed form of post_filter; the layout sentence at token level in full and at character level end to end for blanks, blank lines, trailing comments (with or without a blank in front), comment-only lines and the indentation unit, for white space / comment lines in front of the first token, and for the white space after the last token incl. the final newline (each rewrite step at a token boundary; composition by transitivity); the control flow of parse_symbol / handle_white_space / handle_symbol as generated tables equal to the hand model',
 			'not_proved': 'newlines inserted INSIDE brackets are not a LayoutStep (they change norm and are only dropped by _rebuild); removal of blanks that are the only separation of two tokens is covered only in the direction "insert" (the equalities are symmetric, but the premise is stated on the source without the blanks); layout changes inside brackets are covered (line breaks there are ordinary raw tokens) but not singled out; unterminated string literals are excluded by hypothesis; equality with CPython stays search-only',
 			'correspondence_only': 'the model is the code (three streams); post filter regex semantics (re.split) for the one pattern TokenDefinition ships',
 			'search_only': 'equality with CPython tokenize on the supported subset; layout rewrites the theorems refuse (see not_proved) are covered by the metamorphic search only',
